@@ -87,6 +87,14 @@ theorem reconcileRec_consistent (ni : PhaseRec) (hni : ni.id = -1) (ids : List I
     (hs : (rp.map (·.id)).Pairwise (· < ·)) (hpos : ∀ p ∈ rp, -1 < p.id)
     (hm : ∀ a, a ∈ ids ↔ (a = -1 ∧ has = true) ∨ a ∈ rp.map (·.id)) :
     reconcileRec ni ids ((if has then [ni] else []) ++ rp) = some ((if has then [ni] else []) ++ rp) := by
+  have hfil : rp.filter (fun p => p.id != -1) = rp := by
+    rw [List.filter_eq_self]
+    intro p hp
+    have := hpos p hp
+    have hne : p.id ≠ -1 := by omega
+    simpa using hne
+  have hfilni : (ni :: rp).filter (fun p => p.id != -1) = rp := by
+    simp [List.filter_cons, hni, hfil]
   cases has with
   | false =>
     have hu : uniqSorted ids = rp.map (·.id) := uniqSorted_eq hs (fun a => by simpa using hm a)
@@ -98,7 +106,7 @@ theorem reconcileRec_consistent (ni : PhaseRec) (hni : ni.id = -1) (ids : List I
         have hne : p.id ≠ -1 := by omega
         simp [hne]
     simp only [Bool.false_eq_true, if_false, List.nil_append]
-    simp only [reconcileRec, hu, hh, Bool.false_eq_true, if_false, List.length_map, lt_irrefl, Nat.sub_self,
+    simp only [reconcileRec, hfil, hu, hh, Bool.false_eq_true, if_false, List.length_map, lt_irrefl, Nat.sub_self,
       dropSuperfluousRec, List.reverse_reverse, rekeyRec_self]
   | true =>
     have ht : ((-1 : Int) :: rp.map (·.id)).Pairwise (· < ·) := by
@@ -107,22 +115,7 @@ theorem reconcileRec_consistent (ni : PhaseRec) (hni : ni.id = -1) (ids : List I
       obtain ⟨p, hp, rfl⟩ := List.mem_map.1 ha
       exact hpos p hp
     have hu : uniqSorted ids = (-1 : Int) :: rp.map (·.id) := uniqSorted_eq ht (fun a => by simpa using hm a)
-    have hdrop : dropSuperfluousRec (rp.map (·.id)) 1 (rp.reverse ++ [ni]) = rp.reverse :=
-      dropSuperfluousRec_last _ _ _
-        (fun p hp => List.mem_map_of_mem (f := (·.id)) (List.mem_reverse.1 hp))
-        (by
-          rw [hni]
-          intro hmem
-          obtain ⟨p, hp, hpid⟩ := List.mem_map.1 hmem
-          have := hpos p hp
-          omega)
-    have hfilter : rp.filter (fun p => p.id != -1) = rp := by
-      rw [List.filter_eq_self]
-      intro p hp
-      have := hpos p hp
-      have hne : p.id ≠ -1 := by omega
-      simpa using hne
     simp only [if_true, List.singleton_append]
-    simp [reconcileRec, hu, hdrop, rekeyRec_self, hfilter]
+    simp [reconcileRec, hfilni, hu, dropSuperfluousRec, rekeyRec_self, hfil]
 
 end Orix.Codec.H5
